@@ -30,10 +30,13 @@ def make_sim(ss, rng):
     if calendar:
         simkw = dict(unit='day', dt=rng.choice([1.0, 2.0, 7.0]), start='2020-01-01', dur=rng.choice([14, 21, 30]))
     else:
-        simkw = dict(unit='year', dt=rng.choice([1.0, 0.5, 0.25]), start=2000, dur=rng.choice([2, 3, 5]))
+        simkw = dict(unit='year', dt=rng.choice([1.0, 1.0, 0.5, 0.25]), start=2000, dur=rng.choice([2, 3, 4, 5, 6]))
     def tkw():
         k = rng.random()
-        if k < 0.45: return {}
+        if k < 0.35: return {}
+        if k < 0.45 and not calendar and simkw['dt'] == 1.0 and simkw['dur'] % 2 == 0:
+            # same NUMBER of time points as the sim but different instants (second half of the run at half the step)
+            return dict(unit='year', dt=0.5, start=2000 + simkw['dur'] // 2, stop=2000 + simkw['dur'])
         dt = simkw['dt'] * rng.choice([0.5, 2.0, 1.0, 3.0])
         if calendar: dt = max(1.0, float(int(dt)))
         kw = dict(dt=dt)
